@@ -7,6 +7,7 @@
 
 #include <algorithm>
 #include <cstring>
+#include <unistd.h>
 #include <map>
 #include <unordered_map>
 
@@ -145,6 +146,8 @@ namespace mon
 
       bool inside_subinput() { return !R.frames.empty() && R.frames.back().input != R.top_input; }
 
+      bool g_leaving_subinput = false;   // set while on_leave checks the exit position of a frame that ran on a sub-input
+
       void check_pos( const snap& s, const char* where, std::string_view rule )
       {
          if( s.p < R.base || s.p > R.end ) {
@@ -155,10 +158,12 @@ namespace mon
          const bool bad = ( s.byte != x.byte ) || ( s.has_lc && ( s.line != x.line || s.column != x.column ) );
          if( bad ) {
             std::string cls = R.lazy ? "lazy" : "eager";
-            if( inside_subinput() ) cls += "|rematch-subinput";
+            const bool sub = inside_subinput() || g_leaving_subinput;
+            if( sub ) cls += "|rematch-subinput";
             char b[ 200 ];
             std::snprintf( b, sizeof b, "%s of %.*s: position (byte %zu line %zu col %zu) but the consumed prefix of %zu bytes gives (byte %zu line %zu col %zu)", where, int( std::min< std::size_t >( rule.size(), 60 ) ), rule.data(), s.byte, s.line, s.column, std::size_t( s.p - R.base ), x.byte, x.line, x.column );
-            viol( "C06", "C06|position-mismatch|" + cls + "|" + where_rule(), b );
+            // one key for the whole class "lazy tracking inside a rematch sub-input"; otherwise the rule is part of the call site
+            viol( "C06", "C06|position-mismatch|" + cls + ( ( sub && R.lazy ) ? std::string() : "|" + where_rule() ), b );
          }
       }
 
@@ -212,8 +217,10 @@ namespace mon
       if( R.fuel_out ) return;
       const bool enabled = ( f.flags & F_ENABLED ) != 0;
       const std::string t = tmpl( f.rtname );
-      // ---- C08: closing hook must match the outcome
-      if( enabled ) {
+      // ---- C08: closing hook must match the outcome (not in tree mode: parse_tree's control keeps hooks of unselected rules to itself)
+      if( R.cfg->tree ) {
+      }
+      else if( enabled ) {
          if( !f.started ) viol( "C08", "C08|no-start|" + t, "invocation of " + std::string( f.name ) + " ended without a start hook" );
          const int expect = result == 1 ? 1 : result == 0 ? 2 : ( ( f.flags & F_HAS_UNWIND ) ? 3 : -1 );
          if( f.closed != expect ) {
@@ -233,7 +240,9 @@ namespace mon
          R.lf_begin = f.a.p;
          R.lf_furthest = fur;
       }
+      g_leaving_subinput = ( f.input != R.top_input );
       if( result != 2 ) check_pos( b, "exit", f.name );
+      g_leaving_subinput = false;
       // ---- C02: cursor discipline
       const bool moved = ( f.a.p != b.p || f.a.byte != b.byte || ( f.a.has_lc && b.has_lc && ( f.a.line != b.line || f.a.column != b.column ) ) );
       const bool moved_inside = ( R.bumps != f.bumps );
@@ -269,6 +278,7 @@ namespace mon
       if( R.frames.empty() ) { viol( "C08", std::string( "C08|hook-outside-invocation|" ) + hn[ kind ], std::string( hn[ kind ] ) + " hook for " + std::string( name ) + " outside any invocation" ); return; }
       frame& f = R.frames.back();
       const std::string t = tmpl( f.rtname );
+      if( f.name != name && R.cfg->tree ) return;
       if( f.name != name ) { viol( "C08", std::string( "C08|hook-wrong-frame|" ) + hn[ kind ], std::string( hn[ kind ] ) + " hook for " + std::string( name ) + " while the innermost running invocation is " + std::string( f.name ) ); return; }
       if( ( ( f.flags & F_CFAM_B ) != 0 ) != ( cfam != 0 ) ) viol( "C13", "C13|control-family-mismatch", "hook family differs from the invocation's control family for " + std::string( name ) );
       if( kind != 3 ) check_pos( pos, hn[ kind ], name );
@@ -357,7 +367,7 @@ namespace mon
          frame& f = R.frames.back();
          const std::string t = tmpl( f.rtname );
          if( f.vid != vid ) viol( "C04", "C04|action-wrong-rule|" + t, "action of " + std::string( vname( vid ) ) + " invoked while the innermost running invocation is " + std::string( f.name ) );
-         if( !f.applied || f.closed != -1 ) viol( "C08", "C08|action-without-apply-hook|" + t, "action of " + std::string( vname( vid ) ) + " invoked without the control's apply hook in start..close" );
+         if( ( !f.applied || f.closed != -1 ) && !R.cfg->tree ) viol( "C08", "C08|action-without-apply-hook|" + t, "action of " + std::string( vname( vid ) ) + " invoked without the control's apply hook in start..close" );
          if( f.kids != f.kids_at_apply ) viol( "C08", "C08|apply-before-children-closed|" + t, "apply hook ran before the last nested invocation" );
          if( !( f.flags & F_ACT ) ) viol( "C04", "C04|action-while-disabled|" + t, "action of " + std::string( vname( vid ) ) + " invoked although its invocation runs with apply_mode::nothing" );
          // enclosing look-ahead without an explicit enable in between
@@ -374,7 +384,7 @@ namespace mon
                if( pbyte != x.byte || pline != x.line || pcol != x.column ) {
                   std::string cls = R.lazy ? "lazy" : "eager";
                   if( inside_subinput() ) cls += "|rematch-subinput";
-                  viol( "C06", "C06|action-position|" + cls + "|" + where_rule(), "action_input::position() of " + std::string( vname( vid ) ) + " is (" + std::to_string( pbyte ) + "," + std::to_string( pline ) + "," + std::to_string( pcol ) + ") but the prefix gives (" + std::to_string( x.byte ) + "," + std::to_string( x.line ) + "," + std::to_string( x.column ) + ")" );
+                  viol( "C06", "C06|action-position|" + cls + ( ( inside_subinput() && R.lazy ) ? std::string() : "|" + where_rule() ), "action_input::position() of " + std::string( vname( vid ) ) + " is (" + std::to_string( pbyte ) + "," + std::to_string( pline ) + "," + std::to_string( pcol ) + ") but the prefix gives (" + std::to_string( x.byte ) + "," + std::to_string( x.line ) + "," + std::to_string( x.column ) + ")" );
                }
             }
             ob = std::size_t( b - R.base );
@@ -579,6 +589,92 @@ namespace mon
          return "parse error matching " + std::string( vname( vid ) );
       }
 
+      // ---- reference tree: visible matches of the surviving derivation, filtered by the selector, transformers applied bottom-up
+      struct rnode { int vid; std::size_t b, e; bool has_content; std::vector< rnode > kids; };
+
+      // builds the children list of the virtual root from the pre-order E_VISIT events
+      void build_ref_tree( const std::vector< ref::event >& evs, std::size_t& i, int depth, const signed char* sels, std::vector< rnode >& out )
+      {
+         while( i < evs.size() ) {
+            const ref::event& e = evs[ i ];
+            if( e.type != ref::E_VISIT ) { ++i; continue; }
+            if( e.depth < depth ) return;
+            ++i;
+            const int sel = ( sels && e.vid >= 0 ) ? sels[ e.vid ] : 1;
+            std::vector< rnode > kids;
+            build_ref_tree( evs, i, e.depth + 1, sels, kids );
+            if( sel == 0 ) {
+               for( auto& k : kids ) out.push_back( std::move( k ) );
+               continue;
+            }
+            rnode n{ e.vid, e.b, e.e, true, std::move( kids ) };
+            if( sel == 2 ) n.has_content = false;
+            else if( sel == 3 ) {
+               if( n.kids.size() == 1 ) { rnode only = std::move( n.kids[ 0 ] ); out.push_back( std::move( only ) ); continue; }
+               n.has_content = false;
+            }
+            else if( sel == 4 ) {
+               if( n.kids.empty() ) continue;
+               n.has_content = false;
+            }
+            out.push_back( std::move( n ) );
+         }
+      }
+
+      struct flat { int vid; std::size_t b, e; int depth; bool has_content; };
+      void flatten_ref( const std::vector< rnode >& ns, int depth, std::vector< flat >& out )
+      {
+         for( const auto& n : ns ) {
+            out.push_back( { n.vid, n.b, n.e, depth, n.has_content } );
+            flatten_ref( n.kids, depth + 1, out );
+         }
+      }
+
+      void compare_tree( const grammar& g, const config& cfg, const std::string& input, const ref::interp& I, const ref::outcome& ro, const runres& rs, bool result_ok, const std::string& topt )
+      {
+         if( !result_ok ) return;
+         if( ( ro.st == ref::OK ) != ( !rs.tree_null ) ) { viol( "C12", "C12|tree-iff-success|" + topt, std::string( "parse_tree::parse returned " ) + ( rs.tree_null ? "no tree" : "a tree" ) + " but the plain parse " + ( ro.st == ref::OK ? "succeeds" : "does not succeed" ) ); return; }
+         if( ro.st != ref::OK ) { cell( "tree:none-expected" ); return; }
+         std::vector< rnode > roots;
+         std::size_t i = 0;
+         build_ref_tree( I.evs, i, 0, g.sels, roots );
+         std::vector< flat > want;
+         flatten_ref( roots, 0, want );
+         cell( "tree:trees" );
+         cell( "tree:nodes", long( want.size() ) );
+         bool same = want.size() == rs.tree.size();
+         std::string why;
+         for( std::size_t k = 0; same && k < want.size(); ++k ) {
+            const tnode& t = rs.tree[ k ];
+            const auto it = g_by_name.find( t.type );
+            const int vid = it == g_by_name.end() ? -1 : it->second;
+            if( vid != want[ k ].vid || t.depth != want[ k ].depth || t.bo != want[ k ].b ) same = false;
+            else if( t.has_content != want[ k ].has_content ) { same = false; why = "content kept/removed differs for " + tmpl( t.type ); }
+            else if( t.has_content && t.eo != want[ k ].e ) same = false;
+         }
+         if( !same ) {
+            std::string got, exp;
+            int n = 0;
+            for( const auto& t : rs.tree ) { if( n++ > 14 ) { got += " ..."; break; } got += " " + std::string( std::size_t( t.depth ), '>' ) + tmpl( t.type ) + "[" + std::to_string( t.bo ) + "," + ( t.has_content ? std::to_string( t.eo ) : std::string( "-" ) ) + ")"; }
+            n = 0;
+            for( const auto& t : want ) { if( n++ > 14 ) { exp += " ..."; break; } exp += " " + std::string( std::size_t( t.depth ), '>' ) + tmpl( vname( t.vid ) ) + "[" + std::to_string( t.b ) + "," + ( t.has_content ? std::to_string( t.e ) : std::string( "-" ) ) + ")"; }
+            viol( "C12", "C12|tree-differs-from-derivation|" + topt, "tree:" + got + " ; reference derivation:" + exp + " " + why );
+            return;
+         }
+         // node-level invariants: content inside the input, children contained in and ordered within the parent (outside look-ahead), positions
+         std::vector< const tnode* > stack;
+         for( const tnode& t : rs.tree ) {
+            if( t.source_foreign ) { viol( "C12", "C12|node-source-refers-to-dead-sub-input", "node " + tmpl( t.type ) + " was created on a rematch sub-input: its source view points into that (destroyed) input object, so begin()/end() would read freed stack memory" ); continue; }
+            if( t.has_content && !t.content_ok ) viol( "C12", "C12|node-content-outside-input|" + topt, "node " + tmpl( t.type ) + " has content pointers outside the input" );
+            if( t.has_content ) {
+               const ref::pos3 xb = ref::position_of( input, t.bo, R.eolch );
+               const ref::pos3 xe = ref::position_of( input, t.eo, R.eolch );
+               if( t.bbyte != xb.byte || t.bline != xb.line || t.bcol != xb.column || t.ebyte != xe.byte || t.eline != xe.line || t.ecol != xe.column )
+                  viol( "C06", std::string( "C06|tree-node-position|" ) + ( cfg.lazy ? "lazy" : "eager" ), "node " + tmpl( t.type ) + " reports begin (" + std::to_string( t.bbyte ) + "," + std::to_string( t.bline ) + "," + std::to_string( t.bcol ) + ") for byte offset " + std::to_string( t.bo ) );
+            }
+         }
+      }
+
       // one monitored run and all comparisons with the reference
       void run_case( const grammar& g, const config& cfg, const std::string& input, int bufmode, bool& nontrivial )
       {
@@ -715,6 +811,8 @@ namespace mon
                viol( "C04", "C04|surviving-action-log|" + topt, "surviving action invocations:" + got + " ; reference derivation:" + want );
             }
          }
+         // ---- C12: parse tree == surviving derivation of the selected rules
+         if( cfg.tree ) compare_tree( g, cfg, input, I, ro, rs, result_ok, topt );
          flush_viols( input );
       }
    }  // namespace
@@ -754,7 +852,8 @@ namespace mon
                for( std::size_t i = 0; i < len; ++i ) input.push_back( alpha[ rnd.below( alpha.size() ) ] );
             }
             ++n;
-            if( !V.begin_case( "C03", g.name, input.data(), input.size() ) ) continue;
+            if( !V.begin_case( "C03", g.profile, input.data(), input.size() ) ) continue;
+            ::alarm( 30 );   // wall-clock backstop: its firing is recorded as a hang of this case
             bool nontrivial = false;
             run_case( g, cfg, input, int( ( n + g.salt ) & 1 ), nontrivial );
             if( nontrivial ) ++nt;
@@ -764,6 +863,7 @@ namespace mon
          if( g.cell[ 0 ] ) cell( std::string( "ctx:" ) + g.cell );
          if( gi < 2 ) V.sample( "{\"grammar\":\"" + verif::jesc( g.text ) + "\",\"profile\":\"" + g.profile + "\",\"config\":\"" + cfg.name + "\",\"inputs\":" + std::to_string( n ) + ",\"alphabet\":\"" + verif::jesc( verif::show( alpha ) ) + "\"}" );
       }
+      ::alarm( 0 );
       for( const auto& [ k, v ] : g_cells ) V.count( k, v );
       V.finish();
       return 0;
